@@ -61,6 +61,7 @@ type Machine struct {
 	initAllow      func(path string) bool
 
 	undo    []undoEntry
+	pools   map[*Value][]Value // sync.Pool contents (param poolreuse=1), per path
 	logging bool
 
 	// per-path
@@ -751,6 +752,7 @@ func (m *Machine) resetPath(p pending) {
 	m.clock = 0
 	m.lastNow = nil
 	m.timerOf = map[*Value]*timerRec{}
+	m.pools = map[*Value][]Value{}
 	if p.model == nil {
 		p.model = map[*Term]uint64{}
 	}
